@@ -109,6 +109,8 @@ class C10(common.Prop):
                    "executed instance binary64, inputs exact; cos/sin/tan/acos/asin/atan are uninterpreted (values of such steps are compared "
                    "with the NumPy reference only, not with the model)",
                    "mean replaces non-finite results by 0 (the implementation's fix_nan) - taken as part of the reference",
+                   "typing is the NumPy reference's: dimension arguments on rank-0 tensors (torch accepts dim 0 / -1 there), empty index lists and "
+                   "negative tf.gather indices are treated as ill-typed and are not generated",
                    "in-place methods (pow_, fix_nan on torch, div(in_place=True)), device moves, __eq__/__round__/float and methods that can only "
                    "raise (tf permute/rename/div/size) are outside the operation language"]
 
@@ -140,7 +142,7 @@ class C10(common.Prop):
 
     # ---- cases
     def gen_cases(self, rng, tier):
-        n, maxlen = (520, 6) if tier == "quick" else (9000, 12)
+        n, maxlen = (1500, 6) if tier == "quick" else (40000, 12)
         for i in range(n):
             fw = "torch" if i % 2 == 0 else "tf"
             if i % 8 == 7:
